@@ -210,19 +210,14 @@ theorem then_cap_many_admitted (hi : Inv s) (c : Nat) (hc : s.cap = some c) (h0 
 
 /-- The response an exit queues: exactly one, for the exiting request's id, with code 0 / the handler's
 error code / InternalError — and none if the request was a notify. Nothing else is queued. -/
-def exitCode : ExitKind → Nat
-  | .ret => 0
-  | .err c => c
-  | .panic => Gen.codes.internalError
-
 theorem exit_answers_once (hi : Inv s) (id : Nat) (k : ExitKind) (r : Run) (rest : List Run)
     (ht : takeRun id s.running = some (r, rest)) :
     (step Gen.offFacts s (.exit id k)).outbound =
-      s.outbound ++ (if r.notify then [] else [⟨id, exitCode k⟩]) ∧
+      s.outbound ++ (if r.notify then [] else [⟨id, match k with | .ret => 0 | .err c => c | .panic => Gen.codes.internalError⟩]) ∧
     (step Gen.offFacts s (.exit id k)).running = rest := by
   rw [source_facts, step_spec s hi.1]
   simp only [stepSpec, ht]
-  cases k <;> simp [exitCode] <;> rfl
+  cases k <;> simp <;> rfl
 
 /-- A panicking handler: its caller gets `InternalError` (9) with the request's id, the panic is
 reported, the slot is freed, and the connection state is otherwise what it was (reader free, other
